@@ -1,5 +1,7 @@
 package main
 
+import "go/ast"
+
 func genResolver(c *ctx, s *schema)                    {}
 func genFormatter(c *ctx, s *schema)                   {}
-func genGrammar(c *ctx, s *schema, which string)       {}
+func genActions(c *ctx, s *schema, which string, g *ygrammar, gf *ast.File) {}
